@@ -714,9 +714,6 @@ class Translator:
         flat = []
         for t in targets:
             flat.extend(t.elts if isinstance(t, (ast.Tuple, ast.List)) else [t])
-        if value is not None:
-            # self.config = verify_training_cfg(config)
-            pass
         for t in flat:
             # (a) the configuration object itself
             if dotted(t) == "self.config":
@@ -901,10 +898,6 @@ class Translator:
             return seq([self._strip_raise(x) for x in ir[1]])
         return ir
 
-    # ---- enable_checkpointing ----------------------------------------------------
-    def find_ckpt_guard(self, scope_fn):
-        pass
-
 
 def _clean(ir):
     """drop translator-internal markers that carry no effect."""
@@ -971,7 +964,84 @@ def generate(repo: Path) -> tuple[str, dict]:
     return "\n".join(lines), info
 
 
+def self_test(repo: Path) -> dict:
+    """Feed the translator deliberately mutated copies of the source (in a scratch directory,
+    removed afterwards); every mutant must give a CHANGED term or be REJECTED."""
+    import re
+    import shutil
+    import tempfile
+    base_text, _ = generate(repo)
+    body = lambda t: t[t.index("Definition generated"):]
+    base_body = re.sub(r"\(\*.*?\*\)", "", body(base_text))
+    files = ["sleap_nn/training/model_trainer.py", "sleap_nn/training/lightning_modules.py"] + \
+            [str(p.relative_to(repo)) for p in (repo / "sleap_nn/config").glob("*.py")]
+    MT, LM, TC = files[0], files[1], "sleap_nn/config/trainer_config.py"
+    mask = 'self.config.trainer_config.wandb.api_key = ""'
+    muts = []
+    src_mt = (repo / MT).read_text()
+    for i in range(src_mt.count(mask)):
+        muts.append((f"mask #{i} removed", MT, lambda s, i=i: _replace_nth(s, mask, "pass", i)))
+    muts += [
+        ("checkpoint stores a converted config", LM,
+         lambda s: s.replace('checkpoint["config"] = self.config', 'checkpoint["config"] = OmegaConf.to_container(self.config)')),
+        ("config printed", MT, lambda s: s.replace("        torch.manual_seed(self.seed)\n",
+                                                   "        torch.manual_seed(self.seed)\n        print(self.config)\n", 1)),
+        ("finally replaced by plain block", MT, lambda s: s.replace("        finally:\n", "        if True:\n", 1)),
+        ("checkpointing always enabled", MT,
+         lambda s: s.replace("enable_checkpointing=self.config.trainer_config.save_ckpt", "enable_checkpointing=True")),
+        ("run_id declaration toggled", TC,
+         lambda s: s.replace("    run_id: Optional[str] = None\n", "") if "    run_id: Optional[str] = None\n" in s
+         else s.replace("    group: Optional[str] = None\n", "    group: Optional[str] = None\n    run_id: Optional[str] = None\n", 1)),
+        ("final save dropped", MT, lambda s: _replace_last(
+            s, 'OmegaConf.save(\n                config=self.config, f=f"{self.dir_path}/training_config.yaml"\n            )', "pass")),
+    ]
+    res = {"applied": 0, "detected": 0, "skipped": [], "missed": []}
+    for name, rel, fn in muts:
+        d = Path(tempfile.mkdtemp(prefix="sv_c19_tr_"))
+        try:
+            for f in files:
+                (d / f).parent.mkdir(parents=True, exist_ok=True)
+                shutil.copy(repo / f, d / f)
+            old = (d / rel).read_text()
+            new = fn(old)
+            if new == old:
+                res["skipped"].append(name)
+                continue
+            (d / rel).write_text(new)
+            res["applied"] += 1
+            try:
+                t, _ = generate(d)
+                changed = re.sub(r"\(\*.*?\*\)", "", body(t)) != base_body
+            except (Unsupported, SyntaxError):
+                changed = True
+            if changed:
+                res["detected"] += 1
+            else:
+                res["missed"].append(name)
+        finally:
+            shutil.rmtree(d, ignore_errors=True)
+    return res
+
+
+def _replace_nth(s: str, old: str, new: str, n: int) -> str:
+    i = -1
+    for _ in range(n + 1):
+        i = s.find(old, i + 1)
+        if i < 0:
+            return s
+    return s[:i] + new + s[i + len(old):]
+
+
+def _replace_last(s: str, old: str, new: str) -> str:
+    i = s.rfind(old)
+    return s if i < 0 else s[:i] + new + s[i + len(old):]
+
+
 def main(argv):
+    if len(argv) > 1 and argv[1] == "--self-test":
+        r = self_test(Path(argv[2]) if len(argv) > 2 else Path("/repo"))
+        print(r)
+        return 0 if not r["missed"] and r["applied"] else 1
     repo = Path(argv[1]) if len(argv) > 1 else Path("/repo")
     out = Path(argv[2]) if len(argv) > 2 else None
     try:
